@@ -500,10 +500,10 @@ func body(c *kernel.Ctx) {
 							val, fresh := g.pick(key{kind: kAtt, slot: slot, a: 999}, false, true)
 							if fresh {
 								root, err := attData(slot, val/2, val&1).HashTreeRoot()
-								g.register(kAtt, root, val)
 								if err != nil {
 									panic(err)
 								}
+								g.register(kAtt, root, val)
 							}
 							set[simdata.PubKey(pk)] = attUnsigned(slot, comm, valIdx, pk, val/2, val&1)
 							sub(j, key{kind: kPK, slot: slot, a: comm, b: valIdx}, pkVal(pk), false)
@@ -660,6 +660,17 @@ func evaluate(c *kernel.Ctx, st *runState, now time.Duration) {
 	h.mu.Lock()
 	defer h.mu.Unlock()
 
+	// one report per (oracle, shape, key) and run
+	seen := map[string]bool{}
+	violate := func(oracle, sig string, k key, format string, a ...any) {
+		id := oracle + "|" + sig + "|" + k.String()
+		if seen[id] {
+			return
+		}
+		seen[id] = true
+		c.Violate(prop, oracle, sig, format, a...)
+	}
+
 	byKey := map[key][]*op{}
 	var keys []key
 	stores := map[int][]*op{}
@@ -745,7 +756,7 @@ func evaluate(c *kernel.Ctx, st *runState, now time.Duration) {
 				if x.val == y.val || ((x.weak || y.weak) && x.val&1 == y.val&1) {
 					continue
 				}
-				c.Violate(prop, "rejection", kn+":conflicting-stores-both-accepted",
+				violate("rejection", kn+":conflicting-stores-both-accepted", k,
 					"key %v: Store#%d (client %d, value %d, t=%v) and Store#%d (client %d, value %d, t=%v) carry conflicting data and both returned nil", k, x.storeID, x.client, x.val, x.retT, y.storeID, y.client, y.val, y.retT)
 			}
 		}
@@ -759,12 +770,12 @@ func evaluate(c *kernel.Ctx, st *runState, now time.Duration) {
 			if first == nil {
 				first = o
 			} else if o.val != first.val {
-				c.Violate(prop, "uniqueness", kn+":answers-differ",
+				violate("uniqueness", kn+":answers-differ", k,
 					"key %v: client %d %s returned value %d at t=%v but client %d %s returned value %d at t=%v", k, first.client, opName[first.kind], first.val, first.retT, o.client, opName[o.kind], o.val, o.retT)
 			}
 			for _, s := range okStores {
 				if !s.weak && s.val != o.val {
-					c.Violate(prop, "uniqueness", kn+":answer-differs-from-stored",
+					violate("uniqueness", kn+":answer-differs-from-stored", k,
 						"key %v: client %d %s returned value %d at t=%v although Store#%d of value %d returned nil (t=%v)", k, o.client, opName[o.kind], o.val, o.retT, s.storeID, s.val, s.retT)
 					break
 				}
@@ -772,10 +783,10 @@ func evaluate(c *kernel.Ctx, st *runState, now time.Duration) {
 			switch {
 			case offeredLive[o.val]:
 			case offeredAny[o.val]:
-				c.Violate(prop, "expired-refused", kn+":answer-from-store-after-deadline",
+				violate("expired-refused", kn+":answer-from-store-after-deadline", k,
 					"key %v: client %d %s returned value %d at t=%v which only Stores issued after the duty's deadline (t=%v) supplied", k, o.client, opName[o.kind], o.val, o.retT, dl)
 			default:
-				c.Violate(prop, "attribution", kn+":answer-never-stored",
+				violate("attribution", kn+":answer-never-stored", k,
 					"key %v: client %d %s returned value %d at t=%v which no Store ever supplied for that key", k, o.client, opName[o.kind], o.val, o.retT)
 			}
 		}
@@ -788,27 +799,25 @@ func evaluate(c *kernel.Ctx, st *runState, now time.Duration) {
 			if o.ret != 0 && o.err == "ctx" {
 				verifrt.Probe("await_cancelled")
 			}
-			if o.ret != 0 && o.err == "" && (firstOKCall < 0 || o.call < firstOKCall) && o.retT >= o.callT {
-				if firstOKCall >= 0 {
-					verifrt.Probe("await_resolved_by_later_store")
-				}
+			if o.ret != 0 && o.err == "" && firstOKCall >= 0 && o.call < firstOKCall {
+				verifrt.Probe("await_resolved_by_later_store")
 			}
 			if exp && o.callT < dl && (o.ret == 0 || o.retT > dl) && lastTrim > dl {
 				verifrt.Probe("expiry_trim_with_pending_query")
 			}
 			if o.ret == 0 && o.timeout > 0 && o.callT+o.timeout < now {
-				c.Violate(prop, "unexpected-error", kn+":await-ignored-cancel", "client %d Await(%v) invoked at %v with cancel after %v has not returned at quiescence (t=%v)", o.client, k, o.callT, o.timeout, now)
+				violate("unexpected-error", kn+":await-ignored-cancel", k, "client %d Await(%v) invoked at %v with cancel after %v has not returned at quiescence (t=%v)", o.client, k, o.callT, o.timeout, now)
 				continue
 			}
 			if storedAt < 0 {
 				continue
 			}
 			if o.ret == 0 && !exp {
-				c.Violate(prop, "promptness", kn+":await-blocked-at-quiescence",
+				violate("promptness", kn+":await-blocked-at-quiescence", k,
 					"client %d Await(%v) invoked at %v still blocked at quiescence (t=%v) although a Store providing that key returned nil at t=%v", o.client, k, o.callT, now, storedAt)
 			}
 			if o.ret != 0 && o.err == "ctx" && storedAt < o.retT && (!exp || o.retT < dl) {
-				c.Violate(prop, "promptness", kn+":await-cancelled-after-store",
+				violate("promptness", kn+":await-cancelled-after-store", k,
 					"client %d Await(%v) invoked at %v was cancelled/timed out at %v although a Store providing that key returned nil earlier, at t=%v", o.client, k, o.callT, o.retT, storedAt)
 			}
 		}
